@@ -361,8 +361,13 @@ func mspBody[F algebra.PrimeFieldElement[F]](c fctx[F], cases []pcase) func(*eng
 			if !good {
 				x.Failf("msp/reconvector-value", "%s: ReconstructionVector(%v) · M_A != e0 (re-multiplied with math/big)", key, sub)
 			}
-			// per-holder coefficients are the vector's entries at that holder's rows
-			for _, party := range policy.Members(a) {
+			// per-holder coefficients are the vector's entries at that holder's rows (huge policies: one holder per
+			// subset, rotating, instead of all)
+			holders := policy.Members(a)
+			if huge(pc.e) {
+				holders = holders[int(a)%len(holders):][:1]
+			}
+			for _, party := range holders {
 				co, err := m.ReconstructionCoefficients(ids[party], sub...)
 				if err != nil {
 					x.Failf("msp/reconcoeff", "%s: ReconstructionCoefficients(%d, %v) failed on an accepted set%s", key, ids[party], sub, errLine(err))
